@@ -42,8 +42,12 @@ def _stdout_guard():
 # ---------------------------------------------------------------------------------------------
 # scenarios
 
+_JS_RESOLVER = jsonschema.validators.RefResolver      # as the library left it at import
+
+
 def reset_cold():
     dsched.cooperative_locks('athlib')
+    jsonschema.validators.RefResolver = _JS_RESOLVER   # process-wide setting of a third-party module the library adjusts
     mod('athlon_score')._scoring_objects = None
     mod('hungarian_score')._table = None
     mod('sportshall_score')._DB = None
@@ -115,6 +119,23 @@ def thunks_table():
         'abest-M-SP': lambda: athlib.aag.world_best('m', 'SP'),
         'grade15-F40-LJ': lambda: athlib.wma_age_grade('f', 40, 'LJ', 5.5, year=2015),
         'best15-M-5K': lambda: athlib.wma_world_best('m', '5K', year=2015),
+        'tyr-M15-100-hand': lambda: athlib.tyrving_score('M', 15, '100', '12.3'),
+        'tyr-M15-100-auto': lambda: athlib.tyrving_score('M', 15, '100', '12.30'),
+        'tyr-F12-HJ': lambda: athlib.tyrving_score('F', 12, 'HJ', 1.35),
+        'tyr-F14-800': lambda: athlib.tyrving_score('F', 14, '800', '2.15.3'),
+        'qk-75': lambda: athlib.qkids_score('QKWL', '75', '11.5'),
+        'qk-LJ': lambda: athlib.qkids_score('wessex league', 'LJ', 3.5),
+        'bg-100': lambda: mod('bulgarian_score').score('U16', 'M', '100', 12.5),
+        'bg-LJ': lambda: mod('bulgarian_score').score('U16', 'F', 'LJ', 4.5),
+        'uka-TF': lambda: athlib.calc_uka_age_group('2010-09-01', __import__('datetime').date(2024, 3, 10), 'TF'),
+        'uka-XC': lambda: athlib.calc_uka_age_group(__import__('datetime').date(1960, 2, 29), __import__('datetime').date(2024, 3, 10), 'XC'),
+        'perf-100': lambda: athlib.check_performance_for_discipline('100', '9,58'),
+        'perf-MAR': lambda: athlib.check_performance_for_discipline('MAR', '2:03:59', gender='f'),
+        'perf-DT': lambda: athlib.check_performance_for_discipline('DT', '74.08', gender='m'),
+        'norm-a': lambda: athlib.normalize_event_code(' 110h 91.40cm '),
+        'norm-b': lambda: athlib.normalize_event_code('dt1.500kg'),
+        'impl-a': lambda: athlib.get_specific_event_code('SP', 'M', 'V60'),
+        'impl-b': lambda: athlib.get_specific_event_code('JT', 'F', 'U15'),
         'sv-race-3': lambda: u.schema_valid('json/race.json'),
         'sv-athlete-4': lambda: u.schema_valid('json/athlete.json', validator=jsonschema.Draft4Validator),
         'sv-athlete-3': lambda: u.schema_valid('json/athlete.json'),
@@ -173,6 +194,18 @@ SCENARIOS = [
     ('sv-hit-newest', ['sv-race-3', 'sv-athlete-4'], -19),
     ('va-hit-newest', ['va-athlete', 'va-perf'], -19),
     ('va-bad-hit-newest', ['va-athlete-bad', 'va-perf'], -19),
+    # the other scoring systems and helpers the library offers (no shared state today: any they acquire shows here)
+    ('tyrving-hand-auto', ['tyr-M15-100-hand', 'tyr-M15-100-auto'], 0),
+    ('tyrving-diff', ['tyr-F12-HJ', 'tyr-F14-800'], 0),
+    ('tyrving-same', ['tyr-M15-100-hand', 'tyr-M15-100-hand'], 0),
+    ('qkids-diff', ['qk-75', 'qk-LJ'], 0),
+    ('bulgarian-diff', ['bg-100', 'bg-LJ'], 0),
+    ('uka-diff', ['uka-TF', 'uka-XC'], 0),
+    ('perf-diff', ['perf-100', 'perf-MAR'], 0),
+    ('perf-field', ['perf-DT', 'perf-100'], 0),
+    ('norm-diff', ['norm-a', 'norm-b'], 0),
+    ('implements-diff', ['impl-a', 'impl-b'], 0),
+    ('tyrving-qkids', ['tyr-M15-100-auto', 'qk-75'], 0),
     # three threads
     ('score-3', ['score-M100', 'score-FHJ', 'needed-F800'], 0),
     ('factor-3', ['factor-M50-100', 'factor-F72-MAR', 'grade-F40-LJ'], 0),
@@ -251,6 +284,11 @@ def examine(case):
         want = [norm(r) for r, n in sc.solo()]
         res, run = sc.run([tuple(s) for s in case['schedule']], case.get('first', 0))
     got = [norm(r) for r in res]
+    return judge(case, got, want, run)
+
+
+def judge(case, got, want, run):
+    """Violations of one executed schedule (outcomes `got`) against the single-threaded outcomes `want`."""
     if run.hung:
         HUNG.append(case['scenario'])
     out = []
@@ -307,11 +345,10 @@ def _shard(ctx, payload):
         if r.blocked_yields:
             ctx.label('schedules-with-a-blocked-lock-handover')
         if got != want:
-            ctx.violations(examine(case) or [])
+            # judged on THIS run: a divergence that changes process-wide state may not show a second time
+            ctx.violations(judge(case, got, want, r))
             ctx.label('diverging-schedules')
         if r.hung or HUNG:
-            if got == want:
-                ctx.violations(examine(case) or [])
             raise Poisoned()
         inside = any(0 < s[1] < counts[s[0]] for s in schedule)
         if inside:
@@ -351,6 +388,29 @@ def _shard(ctx, payload):
                     for k1 in range(early + rng.randrange(stepa), counts[a] + 1, stepa):
                         do([(a, k1, b), (b, k2, a)], a)
     ctx.label('early-window-double-preemptions')
+    # two pre-emptions, both inside the BODY of the public function each caller entered (where a function saves, installs
+    # and restores process-wide settings around its work): a stops at every body line, b runs to every body line, a resumes
+    # and finishes, then b
+    if not warm or thorough:
+        bodies = []
+        with _stdout_guard():
+            for t in sc.thunks:
+                sc.setup()
+                r_, n_, lines = dsched.solo(t, record_lines=True)
+                entry = lines[0][0] if lines else None
+                bodies.append([i for i, (fn, ln) in enumerate(lines) if fn == entry])
+        for a in range(n):
+            for b in range(n):
+                if a == b:
+                    continue
+                ba, bb = bodies[a], bodies[b]
+                if not thorough and len(ba) * len(bb) > 400:
+                    ba = ba[::max(1, len(ba) // 20)]
+                    bb = bb[::max(1, len(bb) // 20)]
+                for k1 in ba:
+                    for k2 in bb:
+                        do([(a, k1, b), (b, k2, a)], a)
+        ctx.label('entry-body-double-preemptions')
     # two pre-emptions: a runs to k1, b runs to k2, back to a (then the rest)
     pairs = []
     for a in range(n):
